@@ -85,6 +85,84 @@ fn report_failure(args: &Args, rep: &mut Report, ast: &OpeningHoursExpression, h
     rep.violation("interval_stream", format!("{text:?} [{}] iter_range({from}, {to}): {what}", hol.to_string()), json!({"expr": text, "holidays": hol.to_string(), "from": from.to_string(), "to": to.to_string()}), known);
 }
 
+/// Located contexts (zone + coordinates, so that sun events move from day to day): the stream must
+/// tile the window and agree with `state` at instants sampled inside every interval, and with the
+/// daily schedules (which are zone-independent) on days away from zone transitions.
+pub fn check_located(text: &str, lat: f64, lon: f64, from_utc: NaiveDateTime, days: i64) -> Result<u64, String> {
+    use chrono::{Offset, TimeZone};
+    use opening_hours::localization::Coordinates;
+    let coords = Coordinates::new(lat, lon).ok_or("bad coordinates")?;
+    let ctx = opening_hours::Context::from_coords(coords);
+    let tz = *ctx.locale.get_timezone();
+    let oh = match guarded(|| OpeningHours::parse(text)) {
+        Ok(Ok(oh)) => oh.with_context(ctx),
+        _ => return Ok(0),
+    };
+    let from = tz.from_utc_datetime(&from_utc);
+    let to = from.clone() + Duration::days(days);
+    let ivs = guarded(|| oh.iter_range(from.clone(), to.clone()).take(600).collect::<Vec<_>>()).map_err(|p| format!("iter_range({from}, {to}) at ({lat}, {lon}) panicked: {p}"))?;
+    if ivs.is_empty() {
+        return Err(format!("iter_range({from}, {to}) at ({lat}, {lon}) is empty"));
+    }
+    if ivs[0].range.start.naive_local() != from.naive_local() {
+        return Err(format!("first interval starts at {} instead of {from}", ivs[0].range.start));
+    }
+    let stable = |t: &chrono::DateTime<chrono_tz::Tz>| {
+        let a = tz.offset_from_utc_datetime(&(t.naive_utc() - Duration::hours(4))).fix();
+        let b = tz.offset_from_utc_datetime(&(t.naive_utc() + Duration::hours(4))).fix();
+        a == b
+    };
+    let mut checked = 0;
+    for (k, iv) in ivs.iter().enumerate() {
+        if iv.range.end < iv.range.start {
+            return Err(format!("interval {}..{} goes backwards", iv.range.start, iv.range.end));
+        }
+        if k > 0 {
+            let p = &ivs[k - 1];
+            if p.range.end != iv.range.start {
+                return Err(format!("interval {}..{} does not start where the previous one ended ({})", iv.range.start, iv.range.end, p.range.end));
+            }
+            if p.kind == iv.kind {
+                return Err(format!("two consecutive intervals of state {} around {}", iv.kind, iv.range.start));
+            }
+        }
+        let len = iv.range.end.clone() - iv.range.start.clone();
+        let mut probes = vec![iv.range.start.clone(), iv.range.start.clone() + len / 2];
+        if len >= Duration::minutes(1) {
+            probes.push(iv.range.end.clone() - Duration::minutes(1));
+        }
+        if len > Duration::days(2) {
+            for j in 1..6 {
+                probes.push(iv.range.start.clone() + len * j / 6);
+            }
+        }
+        for p in probes {
+            if p >= iv.range.end || !stable(&p) {
+                continue;
+            }
+            let st = guarded(|| oh.state(p.clone())).map_err(|e| format!("state({p}) panicked: {e}"))?;
+            if st != iv.kind {
+                return Err(format!("iter_range({from}, {to}) at ({lat}, {lon}) [{tz}]: interval {}..{} has state {}, but state({p}) = {st}", iv.range.start, iv.range.end, iv.kind));
+            }
+            // and the daily schedule (naive, zone-independent) says the same at that wall-clock time
+            let n = p.naive_local();
+            let time: opening_hours_syntax::ExtendedTime = chrono::NaiveTime::from_hms_opt(chrono::Timelike::hour(&n), chrono::Timelike::minute(&n), 0).unwrap().into();
+            let pw = oh.schedule_at(n.date()).into_iter().find(|tr| tr.range.start <= time && time < tr.range.end).map(|tr| tr.kind);
+            if pw != Some(iv.kind) {
+                return Err(format!("iter_range({from}, {to}) at ({lat}, {lon}) [{tz}]: interval {}..{} has state {}, but the schedule of {} gives {pw:?} at {}", iv.range.start, iv.range.end, iv.kind, n.date(), n.time()));
+            }
+            checked += 1;
+        }
+        if k + 1 < ivs.len() && stable(&iv.range.end) {
+            let st = guarded(|| oh.state(iv.range.end.clone())).map_err(|e| format!("state panicked: {e}"))?;
+            if st == iv.kind {
+                return Err(format!("at ({lat}, {lon}) [{tz}]: interval {}..{} of state {} ends although state({}) is still {st}", iv.range.start, iv.range.end, iv.kind, iv.range.end));
+            }
+        }
+    }
+    Ok(checked)
+}
+
 pub fn run(args: &Args, rep: &mut Report) {
     let n = args.cases(60_000, 40_000);
     let cap = if args.thorough() { 20_000 } else { 4_000 };
@@ -135,6 +213,38 @@ pub fn run(args: &Args, rep: &mut Report) {
             }
         }
     }
+    // located contexts: zone + coordinates inferred from a site, expressions rich in sun events
+    let sites: [(f64, f64); 10] = [(48.8566, 2.3522), (40.7128, -74.006), (-33.8688, 151.2093), (35.6762, 139.6503), (64.1466, -21.9426), (-54.8, -68.3), (1.35, 103.82), (59.33, 18.07), (21.3069, -157.8583), (-36.8485, 174.7633)];
+    let n_located = args.cases(12_000, 120_000);
+    for k in 0..n_located {
+        let mut r = Rng::new(args.seed, 0x10c0 + args.worker, k);
+        let mut cfg = GenCfg::standard(false).rotated(k);
+        cfg.max_rules = 3;
+        cfg.focus = Some(crate::gen::expr::SelKind::Time);
+        cfg.focus_pct = 50;
+        let ast = expr::gen_expr(&mut r, &cfg);
+        if !denotable(&ast) {
+            continue;
+        }
+        let text = render::plain(&ast);
+        let (lat, lon) = *r.pick(&sites);
+        let from = NaiveDate::from_yo_opt(r.range(1990, 2035) as i32, 1 + r.below(365) as u32).unwrap().and_hms_opt(r.below(24) as u32, r.below(60) as u32, *r.pick(&[0u32, 0, 30])).unwrap();
+        let days = *r.pick(&[1i64, 3, 10, 40]);
+        rep.evaluations += 1;
+        rep.begin(&format!("{text} | ({lat}, {lon}) | {from}"));
+        match check_located(&text, lat, lon, from, days) {
+            Ok(c) => {
+                rep.count("located_windows_checked");
+                rep.add("located_instants_probed", c);
+            }
+            Err(msg) => {
+                rep.violation("interval_stream_located", format!("{text:?}: {msg}"), json!({"expr": text, "lat": lat, "lon": lon, "from_utc": from.to_string(), "days": days}), None);
+                if rep.full() {
+                    break;
+                }
+            }
+        }
+    }
     for (i, text) in corpus().iter().enumerate() {
         if (i as u64) % args.of.max(1) != args.worker {
             continue;
@@ -176,6 +286,14 @@ pub fn run(args: &Args, rep: &mut Report) {
 pub fn replay(args: &Args, case: &Value, rep: &mut Report) {
     let text = case_expr(case);
     let hol = case_hol(case);
+    if let (Some(lat), Some(lon)) = (case["lat"].as_f64(), case["lon"].as_f64()) {
+        rep.evaluations += 1;
+        let from = case["from_utc"].as_str().and_then(|s| NaiveDateTime::parse_from_str(s, "%Y-%m-%d %H:%M:%S%.f").ok()).unwrap_or_default();
+        if let Err(msg) = check_located(&text, lat, lon, from, case["days"].as_i64().unwrap_or(3)) {
+            rep.violation("interval_stream_located", format!("{text:?}: {msg}"), case.clone(), None);
+        }
+        return;
+    }
     let parse_dt = |k: &str| case[k].as_str().and_then(|s| NaiveDateTime::parse_from_str(s, "%Y-%m-%d %H:%M:%S%.f").ok());
     let (Some(from), Some(to)) = (parse_dt("from"), parse_dt("to")) else {
         rep.violation("bad_replay", "replay without from/to".into(), case.clone(), None);
